@@ -118,7 +118,8 @@ def scenarios(cases):
                        P.DO("send", msg=P.B("sequence", cmds=[P.cmd(8001), P.cmd(8002, ret=P.U(8802)), {"id": 0, "batch": [P.cmd(8003), P.cmd(8004, ret=P.U(8804))]}])),
                        P.DO("sleep", us=3000)]
         script += [P.W("idle"), P.DO("send", msg=P.U(9999)), P.W("idle"), P.DO("gate", name="g"), P.DO("sleep", us=25000), P.W("idle"), P.DO("quit"), P.W("returned")]
-        s = P.scenario(i, script, opts={"fps": 120}, init=c["init"], update=upd, watchdog_ms=5000)
+        # every third program runs with WithoutCatchPanics (no command panics here): commands are off the loop all the same
+        s = P.scenario(i, script, opts={"fps": 120, "nocatch": i % 3 == 2}, init=c["init"], update=upd, watchdog_ms=5000)
         if c["gomaxprocs"]:
             s["gomaxprocs"] = c["gomaxprocs"]
         else:
@@ -211,12 +212,19 @@ def raw_family(res, tier, rnd):
     if not okb:
         raise C.Fail("harness build failed (does /repo still compile with -tags verif?):\n" + out[-3000:])
     scs, metas = [], []
-    for i in range(8 if tier == "quick" else 120):
-        kind = ["raw-send", "raw-from-cmd", "raw-nested", "stored"][i % 4]
+    for i in range(10 if tier == "quick" else 120):
+        kind = ["raw-send", "raw-from-cmd", "raw-nested", "stored", "equal-results"][i % 5]
         ids = [200 + 10 * i + k for k in range(rnd.choice([2, 3, 5]))]
         leaves = [P.cmd(j, ret=P.U(6000 + j)) for j in ids]
         upd, script, times = {}, [P.W("started"), P.W("idle")], 1
-        if kind == "raw-send":
+        if kind == "equal-results":
+            # several commands whose results are equal values of a built-in or unusual type: one delivery each
+            val = [P.B("windowsizemsg", w=80, h=24), P.B("errmsg", w=3), P.B("tn-slice"), P.B("focus")][(i // 5) % 4]
+            leaves = [P.cmd(j, ret=dict(val)) for j in ids]
+            upd["u:1"] = {"cmd": {"id": 0, "batch": leaves}}
+            script += [P.DO("send", msg=P.U(1))]
+            eqkey = {"windowsizemsg": "ws:80x24", "errmsg": "err:3", "tn-slice": "tn:slice", "focus": "b:focus"}[val["b"]]
+        elif kind == "raw-send":
             entries = [None] + leaves[:1] + [None] + leaves[1:] + [None]
             script += [P.DO("send", msg=P.B("batch", cmds=entries))]
         elif kind == "raw-from-cmd":
@@ -235,7 +243,7 @@ def raw_family(res, tier, rnd):
                 script += [P.DO("send", msg=P.U(1)), P.DO("sleep", us=4000), P.W("idle")]
         script += [P.DO("sleep", us=6000), P.W("idle"), P.DO("sleep", us=3000), P.W("idle"), P.DO("quit"), P.W("returned")]
         scs.append(P.scenario(i, script, opts={"fps": 120}, update=upd, parallel_ok=True, watchdog_ms=4000))
-        metas.append({"kind": kind, "ids": ids, "times": times})
+        metas.append({"kind": kind, "ids": ids, "times": times, "eqkey": eqkey if kind == "equal-results" else None})
     results, _ = P.run_scenarios("C02_raw", scs, timeout=900)
     bad = []
     for i, (m, r) in enumerate(zip(metas, results)):
@@ -246,6 +254,11 @@ def raw_family(res, tier, rnd):
             bad.append((i, "%s: Run ended with %s" % (m["kind"], r["run_err"])))
             continue
         evs = r["events"]
+        if m["kind"] == "equal-results":
+            n = sum(1 for e in evs if e["ev"] == "UpdateBegin" and e.get("key") == m["eqkey"])
+            if n != len(m["ids"]):
+                bad.append((i, "%d commands of one batch each returned an equal message (%s); Update received it %d times" % (len(m["ids"]), m["eqkey"], n)))
+            continue
         for j in m["ids"]:
             ns = sum(1 for e in evs if e["ev"] == "CmdStart" and e["id"] == j)
             nr = sum(1 for e in evs if e["ev"] == "UpdateBegin" and e.get("key") == "u:%d" % (6000 + j))
